@@ -197,7 +197,7 @@ func (r *SpecReg) Build() {
 		switch sd.Kind {
 		case "sumfold":
 			r.buildFold(sd)
-		case "define", "declare":
+		case "define", "declare", "function":
 			r.buildDefine(sd)
 		}
 	}
@@ -374,7 +374,24 @@ func (r *SpecReg) buildDefine(sd *SpecDecl) {
 		ret = so
 	}
 	fn.Ret = ret
-	if sd.Kind == "declare" || sd.Body == nil {
+	if sd.Kind == "function" && sd.Body != nil {
+		var ps, ns []string
+		for i, s := range sorts {
+			ps = append(ps, s.Name)
+			ns = append(ns, "p_"+sd.Params[i].Name)
+		}
+		body, err := env.Eval(sd.Body)
+		if err != nil {
+			r.prog.errf(sd.Line, "function %s: %v", sd.Name, err)
+			return
+		}
+		if body.Sort != ret {
+			r.prog.errf(sd.Line, "function %s: body has sort %s, declared %s", sd.Name, body.Sort.Name, ret.Name)
+			return
+		}
+		app := "(" + fn.SMT + " " + strings.Join(ns, " ") + ")"
+		fn.Decl = fmt.Sprintf("(declare-fun %s (%s) %s)\n(assert (forall (%s) (! (= %s %s) :pattern (%s))))\n", fn.SMT, strings.Join(ps, " "), ret.Name, strings.Join(pd, " "), app, body.S, app)
+	} else if sd.Kind == "declare" || sd.Body == nil {
 		var ps []string
 		for _, s := range sorts {
 			ps = append(ps, s.Name)
@@ -557,12 +574,16 @@ func (e *SpecEnv) Eval(x *SX) (Term, error) {
 		}
 		if len(x.Args) > 1 {
 			var ps string
-			for _, tx := range x.Args[1:] {
-				tt, err := e.withBound(vs).Eval(tx)
-				if err != nil {
-					return tt, err
+			for _, grp := range x.Args[1:] {
+				var ts []string
+				for _, tx := range grp.Args {
+					tt, err := e.withBound(vs).Eval(tx)
+					if err != nil {
+						return tt, err
+					}
+					ts = append(ts, tt.S)
 				}
-				ps += " :pattern (" + tt.S + ")"
+				ps += " :pattern (" + strings.Join(ts, " ") + ")"
 			}
 			return Term{fmt.Sprintf("(%s (%s) (! %s%s))", x.Op, strings.Join(decl, " "), body.S, ps), SBool}, nil
 		}
@@ -800,6 +821,38 @@ func (e *SpecEnv) evalCall(x *SX) (Term, error) {
 			name = cls.Name
 		}
 		return Term{sx("errIs", a.S, e.ss().StrConst("errclass:"+name)), SBool}, nil
+	}
+	if x.Name == "unchangedExcept" {
+		// unchangedExcept(new, old, Field1, Field2, ...): all other fields are equal
+		if len(x.Args) < 2 {
+			return Term{}, fmt.Errorf("unchangedExcept(new, old, fields...)")
+		}
+		a, err := e.Eval(x.Args[0])
+		if err != nil {
+			return a, err
+		}
+		b, err := e.Eval(x.Args[1])
+		if err != nil {
+			return b, err
+		}
+		a, b = autoDeref(a), autoDeref(b)
+		if a.Sort != b.Sort || a.Sort.Kind != KStruct {
+			return a, fmt.Errorf("unchangedExcept on sorts %s, %s", a.Sort.Name, b.Sort.Name)
+		}
+		skip := map[string]bool{}
+		for _, f := range x.Args[2:] {
+			if a.Sort.FieldByName(f.Name) == nil {
+				return a, fmt.Errorf("unchangedExcept: no field %s in %s", f.Name, a.Sort.Name)
+			}
+			skip[f.Name] = true
+		}
+		var cs []Term
+		for _, f := range a.Sort.Fields {
+			if !skip[f.Name] {
+				cs = append(cs, tEq(Term{sx(f.Acc, a.S), f.Sort}, Term{sx(f.Acc, b.S), f.Sort}))
+			}
+		}
+		return tAnd(cs...), nil
 	}
 	if err := evalArgs(); err != nil {
 		return Term{}, err
